@@ -504,6 +504,8 @@ def run(scen):
         if trace.hang or trace.escaped:
             break
     held[0] = None
+    if mech == 'rebind' and scen.get('observe_release'):
+        observe_release(trace)
     return trace
 
 
